@@ -19,7 +19,8 @@ Definition no_opts : walk_opts :=
 (* kFlowDecompCycles(loop with flow f, k = 1, weight_type = float), safety optimisations off *)
 Definition loop_inst (f : Q) : kfdc_inst :=
   {| c_graph := loopG; c_k := 1; c_flow := [((0, 0)%N, f)]; c_ignore := []; c_int := false;
-     c_cons := []; c_cov := 1%Q; c_opts := no_opts; c_safe_lists := []; c_fix := []; c_given := None |}.
+     c_cons := []; c_cov := 1%Q; c_opts := no_opts; c_safe_lists := []; c_fix := []; c_given := None;
+     c_scale_free := false |}.
 
 Lemma loopG_wf : wf_stg loopG.
 Proof.
@@ -61,18 +62,19 @@ Proof. apply sat_b_sound. vm_compute. reflexivity. Qed.
 Definition scale_inst (c : Q) (I : kfdc_inst) : kfdc_inst :=
   {| c_graph := c_graph I; c_k := c_k I; c_flow := map (fun eq => (fst eq, (c * snd eq)%Q)) (c_flow I);
      c_ignore := c_ignore I; c_int := c_int I; c_cons := c_cons I; c_cov := c_cov I; c_opts := c_opts I;
-     c_safe_lists := c_safe_lists I; c_fix := c_fix I; c_given := c_given I |}.
+     c_safe_lists := c_safe_lists I; c_fix := c_fix I; c_given := c_given I; c_scale_free := c_scale_free I |}.
 
 Definition feasible (I : kfdc_inst) : Prop := exists a, sat a (encode_kfdc I).
 
 (* C04, scale invariance at full strength (float weights): false of the faithful model *)
 Definition scale_invariance_statement : Prop :=
-  forall (I : kfdc_inst) (c : Q), (0 < c)%Q -> c_int I = false -> wf_stg (c_graph I) ->
+  forall (I : kfdc_inst) (c : Q), (0 < c)%Q -> c_int I = false -> c_scale_free I = false -> wf_stg (c_graph I) ->
     (feasible I <-> feasible (scale_inst c I)).
 
 Lemma loop_quarter_infeasible : ~ feasible (scale_inst (1 # 4)%Q (loop_inst 1)).
 Proof.
   intros [a Ha]. apply (kfdc_small_flow_infeasible (scale_inst (1 # 4)%Q (loop_inst 1)) a (0, 0)%N); try exact Ha.
+  - reflexivity.
   - vm_compute. left. reflexivity.
   - vm_compute. reflexivity.
   - cbn. left. reflexivity.
@@ -82,7 +84,7 @@ Qed.
 Theorem kfdc_scale_invariance_refuted : ~ scale_invariance_statement.
 Proof.
   intros H. apply loop_quarter_infeasible.
-  apply (H (loop_inst 1) (1 # 4)%Q); [reflexivity|reflexivity|exact loopG_wf|].
+  apply (H (loop_inst 1) (1 # 4)%Q); [reflexivity|reflexivity|reflexivity|exact loopG_wf|].
   exists loop_sol. exact loop_feasible.
 Qed.
 
@@ -108,7 +110,7 @@ Definition decomposes (I : kfdc_inst) (x : N -> PathEnc.edge -> Z) (wt : N -> Q)
 
 (* full strength: the LP for k is feasible exactly when the flow decomposes into k weighted walks *)
 Definition kfdc_exact_statement : Prop :=
-  forall I, wf_stg (c_graph I) -> o_allow_empty (c_opts I) = false ->
+  forall I, c_scale_free I = false -> wf_stg (c_graph I) -> o_allow_empty (c_opts I) = false ->
     (feasible I <-> exists x wt, decomposes I x wt).
 
 (* proved half: every LP solution is a decomposition *)
@@ -129,7 +131,7 @@ Qed.
 Theorem kfdc_exact_refuted : ~ kfdc_exact_statement.
 Proof.
   intros H. apply loop_quarter_infeasible.
-  apply (H (scale_inst (1 # 4)%Q (loop_inst 1)) loopG_wf eq_refl).
+  apply (H (scale_inst (1 # 4)%Q (loop_inst 1)) eq_refl loopG_wf eq_refl).
   exists (fun _ _ => 1%Z), (fun _ => (1 # 4)%Q). split; [|split].
   - intros i Hi. cbn in Hi. destruct Hi as [<-|[]].
     exists [1; 0; 0; 2]%N. split; [vm_compute; reflexivity|]. split; [reflexivity|]. split; [reflexivity|]. split.
